@@ -24,6 +24,18 @@ LEVEL = "proof"
 NS = "Adept.ArrayAD."
 REQUIRED = ["C03_record_eq_denote_assign", "C03_record_eq_denote_passive", "C03_record_eq_denote_scalar",
             "C03_record_eq_denote_where", "C03_record_eq_denote_indexed", "C03_reduce_jacobian", "C03_values"]
+# values that keep the arguments of the Float-regime functions inside their open domains, also for the product A*B of two
+# such arrays (the nested form): dyadic, printed and parsed exactly
+DOMAIN_VALUES = {
+    "unit": ["0.25", "0.5", "0.75", "-0.25", "-0.5", "-0.75", "0.125", "-0.375"],        # |x| < 1, x != 0
+    "pos": ["0.5", "1", "1.5", "2", "3", "0.75", "1.25"],                                  # x > 0
+    "gt1": ["1.5", "2", "3", "1.25", "2.5"],                                               # x > 1
+    "real": ["0.5", "-0.5", "1", "-1", "1.5", "-1.25", "0.25", "2", "-0.75"],             # moderate, x != 0
+    "frac": ["0.25", "-0.25", "0.75", "-0.75", "1.25", "-1.25", "2.25", "-1.75", "0.375"],  # no integer, no half
+}
+FUNC_DOMAIN = {"log": "pos", "log10": "pos", "log2": "pos", "sqrt": "pos", "cbrt": "pos", "log1p": "pos", "acosh": "gt1",
+               "asin": "unit", "acos": "unit", "atanh": "unit", "tan": "unit", "ceil": "frac", "floor": "frac",
+               "round": "frac", "trunc": "frac", "rint": "frac", "nearbyint": "frac"}
 EXT = [1, 2, 3, 4, 5, 9]          # {1,2,3,W-1,W,W+1,2W+1} for W in {2,4}
 EXT_W = [5, 6, 6, 4, 4, 2]
 MAXCELLS = 260
@@ -42,6 +54,7 @@ class Gen:
         self.views_used = []
         self.targets = set()
         self.force = {}         # directed cases (sweep_cases): forced parameters of a statement family
+        self.pool = []          # directed cases: extents not handed out yet
         self.meta = []          # per statement: (kind, rank, dims)
         self.pref_dep = []      # views to be used as dependents / independents of the case's Jacobian (s_packed)
         self.pref_indep = []
@@ -50,10 +63,23 @@ class Gen:
         self.nxt += 1
         return self.nxt - 1
 
+    def pick(self, key, choices, weights=None):
+        """a discrete parameter of a statement family: forced by a directed case (sweep_cases), random otherwise"""
+        if key in self.force:
+            return self.force[key]
+        return self.r.choices(choices, weights)[0] if weights else self.r.choice(choices)
+
     def ext(self):
+        if "extents" in self.force:
+            # directed cases: pairwise different extents > 1, so that a wrong coordinate / dimension cannot cancel
+            if not self.pool:
+                self.pool = list(self.force["extents"]); self.r.shuffle(self.pool)
+            return self.pool.pop()
         return self.r.choices(EXT, EXT_W)[0]
 
     def dims(self, rank, cap=MAXCELLS):
+        if "extents" in self.force:
+            return [self.ext() for _ in range(rank)]
         for _ in range(40):
             d = [self.ext() for _ in range(rank)]
             n = 1
@@ -71,6 +97,8 @@ class Gen:
             return [r.choice([1, 2, -1, -2, 3, 1, 2]) for _ in range(n)]
         if style == "distinct":
             v = list(range(-(n // 2), n - n // 2)); r.shuffle(v); return v
+        if style in DOMAIN_VALUES:
+            return [r.choice(DOMAIN_VALUES[style]) for _ in range(n)]
         return [r.randint(-4, 4) for _ in range(n)]
 
     def root(self, dims, active, style="any", col=None):
@@ -82,7 +110,8 @@ class Gen:
         col = col and len(dims) >= 2
         self.pre.append("%s %d %s%s : %s" % ("av" if active else "pv", h, "col " if col else "", " ".join(map(str, dims)),
                                              " ".join(map(str, self.vals(n, style)))))
-        self.info[h] = dict(rank=len(dims), dims=list(dims), active=active, root=h, kind="arr", views=["col" if col else "root"])
+        self.info[h] = dict(rank=len(dims), dims=list(dims), active=active, root=h, kind="arr", views=["col" if col else "root"],
+                            style=style if style in DOMAIN_VALUES else None)
         return h
 
     def scalar(self, v=None):
@@ -130,8 +159,10 @@ class Gen:
         kinds = ["sub", "sub", "rev", "link"] + (["soft"] if top else [])
         if rank == 2:
             kinds += ["T", "T", "slice"]
-        if rank == 3:
+        if rank in (3, 4):
             kinds += ["perm", "perm"]
+        if rank == 3:
+            kinds += ["slice"]
         if rank == 1:
             kinds += ["diag", "slice", "slice"]
         k = r.choice(kinds)
@@ -159,12 +190,12 @@ class Gen:
             src = self.array([dims[1], dims[0]], active, depth - 1, style, False)
             return self.derive(src, "vT %(h)d %(src)d", dims, "T")
         if k == "perm":
-            p = r.choice([(0, 2, 1), (1, 0, 2), (1, 2, 0), (2, 0, 1), (2, 1, 0)])
-            sd = [0, 0, 0]
-            for q in range(3):
+            p = self.perm(rank)
+            sd = [0] * rank
+            for q in range(rank):
                 sd[p[q]] = dims[q]
             src = self.array(sd, active, depth - 1, style, False)
-            return self.derive(src, "vperm %%(h)d %%(src)d %d %d %d" % p, dims, "permute")
+            return self.derive(src, "vperm %(h)d %(src)d " + " ".join(map(str, p)), dims, "permute")
         if k == "slice":
             q = r.randint(0, rank)
             m = r.choice([1, 2, 3])
@@ -172,7 +203,7 @@ class Gen:
             tot = m
             for x in dims:
                 tot *= x
-            if rank + 1 > 3 or tot > 2 * MAXCELLS:
+            if rank + 1 > 4 or tot > 2 * MAXCELLS:
                 return self.root(dims, active, style)
             src = self.array(sd, active, depth - 1, style, False)
             spec = ["s0:%d:1" % (d - 1) for d in dims]
@@ -190,13 +221,20 @@ class Gen:
         src = self.array(dims, active, depth - 1, style, False)
         return self.derive(src, ("vsoft" if k == "soft" else "vlink") + " %(h)d %(src)d", dims, "soft_link" if k == "soft" else "link")
 
+    def perm(self, rank):
+        """a non-identity permutation of the dimensions"""
+        while True:
+            p = list(range(rank)); self.r.shuffle(p)
+            if p != list(range(rank)):
+                return tuple(p)
+
     def operand(self, dims, active=None, avoid=(), style="any", reuse=0.25):
         """an operand with the given extents; sometimes an existing one (sharing / overlap with other operands)"""
         r = self.r
         active = (r.random() < 0.7) if active is None else active
         if style == "any" and r.random() < reuse:
             cands = [h for h, i in self.info.items() if i["kind"] == "arr" and i["dims"] == list(dims) and i["active"] == active
-                     and i["root"] not in avoid]
+                     and i["root"] not in avoid and not self.info[i["root"]].get("style")]
             if cands:
                 return r.choice(cands)
         return self.array(dims, active, None, style)
@@ -220,12 +258,16 @@ class Gen:
             self.targets.add(t)
 
     def rankdims(self, ranks=(1, 1, 2, 2, 3), cap=MAXCELLS):
-        rank = self.r.choice(ranks)
+        rank = self.pick("rank", ranks)
         return self.dims(rank, cap)
+
+    def act(self, key="act"):
+        """activeness of an operand: forced by a directed case, random (70 % active) otherwise"""
+        return self.force.get(key)
 
     def s_copy(self):
         d = self.rankdims(); t = self.target(d)
-        self.emit("copy %d %d" % (t, self.operand(d)), "copy", d, t)
+        self.emit("copy %d %d" % (t, self.operand(d, self.act())), "copy", d, t)
 
     def s_neg(self):
         d = self.rankdims(); t = self.target(d)
@@ -233,15 +275,15 @@ class Gen:
 
     def s_bin(self):
         d = self.rankdims(); t = self.target(d)
-        op = self.r.choice(["add", "sub", "mul", "mul", "div"])
-        a = self.operand(d)
-        b = self.operand(d, style="pow2" if op == "div" else "any")
+        op = self.pick("op", ["add", "sub", "mul", "mul", "div"])
+        a = self.operand(d, self.act("acta"))
+        b = self.operand(d, self.act("actb"), style="pow2" if op == "div" else "any")
         self.emit("bin %s %d %d %d" % (op, t, a, b), "bin-" + op, d, t)
 
     def s_bins(self):
         d = self.rankdims(); t = self.target(d); r = self.r
-        left = r.random() < 0.5
-        op = r.choice(["add", "sub", "mul", "div"])
+        left = self.pick("left", [True, False])
+        op = self.pick("op", ["add", "sub", "mul", "div"])
         if op == "div":
             c = r.choice([2, 4, -2, 8])
             a = self.operand(d, True, style="pow2" if left else "any")
@@ -254,22 +296,22 @@ class Gen:
 
     def s_bina(self):
         d = self.rankdims(); t = self.target(d); r = self.r
-        op = r.choice(["add", "sub", "mul"]); s = self.scalar(); a = self.operand(d)
-        if r.random() < 0.5:
+        op = self.pick("op", ["add", "sub", "mul"]); s = self.scalar(); a = self.operand(d, self.act())
+        if self.pick("left", [True, False]):
             self.emit("binal %s %d %d %d" % (op, t, s, a), "adouble-left-" + op, d, t)
         else:
             self.emit("binar %s %d %d %d" % (op, t, a, s), "adouble-right-" + op, d, t)
 
     def s_nested(self):
         d = self.rankdims(); t = self.target(d); r = self.r
-        k = r.choice(["n1", "n2", "n3", "n8"])
+        k = self.pick("k", ["n1", "n2", "n3", "n8"])
         # n8 puts its first operand under noalias(): keep the promise
         a = self.operand(d, True, avoid=(self.info[t]["root"],) if k == "n8" else ())
         self.emit("%s %d %d %d %d" % (k, t, a, self.operand(d), self.operand(d)), "nested-" + k, d, t)
 
     def s_wrap(self):
         d = self.rankdims(); t = self.target(d); r = self.r
-        k = r.choice(["n4", "n5", "n6", "n7"])
+        k = self.pick("k", ["n4", "n5", "n6", "n7"])
         troot = self.info[t]["root"]
         # noalias promises that nothing overlaps the target: keep the promise (C04 owns broken promises)
         avoid = (troot,) if k != "n7" else ()
@@ -281,7 +323,7 @@ class Gen:
 
     def s_bcast(self):
         d = self.rankdims(); t = self.target(d); r = self.r
-        k = r.choice(["bcp", "bca", "bce"])
+        k = self.pick("k", ["bcp", "bca", "bce"])
         if k == "bcp":
             self.emit("bcp %d %d" % (t, r.randint(-5, 5)), "broadcast-passive", d, t)
         elif k == "bca":
@@ -291,7 +333,7 @@ class Gen:
 
     def s_passive(self):
         d = self.rankdims(); t = self.target(d)
-        if self.r.random() < 0.5:
+        if self.pick("k", [True, False]):
             self.emit("copy %d %d" % (t, self.operand(d, False)), "passive-array", d, t)
         else:
             self.emit("bin %s %d %d %d" % (self.r.choice(["add", "mul", "sub"]), t, self.operand(d, False), self.operand(d, False)), "passive-expression", d, t)
@@ -299,16 +341,17 @@ class Gen:
     def s_compound(self):
         d = self.rankdims(); t = self.target(d); r = self.r
         troot = self.info[t]["root"]
-        op = r.choice(["add", "sub", "mul", "mul", "div"])
-        k = r.choice(["cmp", "cmp", "cmps", "cmpa"])
+        op = self.pick("op", ["add", "sub", "mul", "mul", "div"])
+        k = self.pick("k", ["cmp", "cmp", "cmps", "cmpa"])
         if k == "cmp":
-            a = self.operand(d, avoid=(troot,), style="pow2" if op == "div" else "any")
+            a = self.operand(d, self.act(), avoid=(troot,), style="pow2" if op == "div" else "any")
             self.emit("cmp %s %d %d" % (op, t, a), "compound-" + op, d, t)
         elif k == "cmps":
             self.emit("cmps %s %d %d" % (op, t, r.choice([2, 4, -2]) if op == "div" else r.choice([-3, 2, 3])), "compound-scalar-" + op, d, t)
         else:
-            op = r.choice(["add", "sub", "mul"])
-            self.emit("cmpa %s %d %d" % (op, t, self.scalar()), "compound-adouble-" + op, d, t)
+            # T /= s records 1/s and T/s^2: exact only for a power of two (directed cases; the random choice keeps to + - *)
+            op = op if "op" in self.force else r.choice(["add", "sub", "mul"])
+            self.emit("cmpa %s %d %d" % (op, t, self.scalar(r.choice([2, -2, 4]) if op == "div" else None)), "compound-adouble-" + op, d, t)
 
     def s_overlap(self):
         """target and operand are different views of one root whose address ranges touch, overlap in one element, overlap
@@ -403,7 +446,7 @@ class Gen:
     def s_where(self):
         d = self.rankdims((1, 1, 2, 2)); t = self.target(d); r = self.r
         troot = self.info[t]["root"]
-        k = r.choice(["whr", "whr", "whrs", "wheo", "wheo", "wheos"])
+        k = self.pick("k", ["whr", "whr", "whrs", "wheo", "wheo", "wheos"])
         # the mask is evaluated lazily while the target is written (F-25, a C04 matter): keep it off the target
         if k in ("whr", "whrs"):
             a = self.operand(d, avoid=(troot,)); b = self.operand(d, avoid=(troot,))
@@ -422,7 +465,7 @@ class Gen:
 
     def s_indexed(self):
         r = self.r
-        k = r.choice(["ixt", "ixe", "ixts", "ixtc", "ixs", "ixss", "ixtt", "ixcmp", "ixt2", "ixe2", "ixs2", "ixts2"])
+        k = self.pick("k", ["ixt", "ixe", "ixts", "ixtc", "ixs", "ixss", "ixtt", "ixcmp", "ixt2", "ixe2", "ixs2", "ixts2"])
         if k in ("ixt2", "ixe2", "ixs2", "ixts2"):
             D = self.dims(2, 80); m0 = r.choice([1, 2, 3, D[0]]); m1 = r.choice([1, 2, 3, D[1]])
             if k == "ixs2":
@@ -461,21 +504,21 @@ class Gen:
             n2 = self.ext(); a = self.operand([n2]); j = self.ivec(m, n2)
             self.emit("ixtt %d %d %d %d" % (t, i, a, j), "indexed-both", [n], t)
         else:
-            op = r.choice(["add", "sub", "mul"])
+            op = self.pick("op", ["add", "sub", "mul"])
             # repeated indices in a compound indexed assignment read elements the statement has already written
             i = self.ivec(m if m <= n else n, n, perm=True) if m == n else i
             self.emit("ixcmp %s %d %d %d" % (op, t, i, self.operand([m], avoid=(troot,))), "indexed-compound", [n], t)
 
     def s_reduce(self):
         r = self.r
-        f = r.choice(["sum", "sum", "mean", "product", "minval", "maxval", "norm2"])
+        f = self.pick("f", ["sum", "sum", "mean", "product", "minval", "maxval", "norm2"])
         d = self.rankdims((1, 1, 2, 3), 64 if f != "product" else 20)
-        if f == "mean" and r.random() < 0.7:
+        if f == "mean" and r.random() < 0.7 and "extents" not in self.force:
             d = [r.choice([1, 2, 4, 8])] if len(d) == 1 else [r.choice([1, 2, 4]) for _ in d]
         s = self.scalar(0)
         style = "prod" if f in ("product", "norm2") else "distinct" if f in ("minval", "maxval") and r.random() < 0.7 else "any"
-        k = r.choice(["red", "red", "rede", "dot"])
-        if k == "dot" or (k == "rede" and len(d) == 1 and r.random() < 0.5):
+        k = self.pick("k", ["red", "red", "rede", "dot"])
+        if k == "dot" or (k == "rede" and len(d) == 1 and r.random() < 0.5 and "k" not in self.force):
             n = [d[0]]
             self.emit("dot %d %d %d" % (s, self.operand(n, True), self.operand(n)), "dot_product", n, s)
         elif k == "red":
@@ -488,19 +531,19 @@ class Gen:
 
     def s_rdim(self):
         r = self.r
-        f = r.choice(["sum", "sum", "mean", "product", "minval", "maxval", "norm2"])
+        f = self.pick("f", ["sum", "sum", "mean", "product", "minval", "maxval", "norm2"])
         d = self.rankdims((2, 2, 3), 120)
-        dim = r.randrange(len(d))
+        dim = self.force["dim"] if "dim" in self.force else r.randrange(len(d))
         if f == "product" and d[dim] > 5:
             d[dim] = r.choice([1, 2, 3])
-        if f == "mean" and r.random() < 0.7:
+        if f == "mean" and r.random() < 0.7 and "extents" not in self.force:
             d[dim] = r.choice([1, 2, 4, 8])
         style = "prod" if f in ("product", "norm2") else "any"
         a = self.operand(d, True, style=style, reuse=0.0 if style != "any" else 0.25)
         nh = self.h()
         nd = d[:dim] + d[dim + 1:]
         self.info[nh] = dict(rank=len(nd), dims=nd, active=True, root=nh, kind="arr", views=["root"], late=True)
-        if r.random() < 0.7:
+        if self.pick("k", ["rdim", "rdim", "rdim", "rdime"]) == "rdim":
             self.emit("rdim %s %d %d %d" % (f, nh, a, dim), "reduce-dim-" + f, d, None)
         else:
             self.emit("rdime %s %d %d %d %d" % (f, nh, a, self.operand(d, style=style), dim), "reduce-dim-expression-" + f, d, None)
@@ -531,7 +574,7 @@ class Gen:
         r = self.r
         d = self.rankdims((1, 2, 3), 60)
         ix = lambda: " ".join(str(r.randrange(x)) for x in d)
-        k = r.choice(["elr", "elrc", "elw", "elc", "elcp", "elx"])
+        k = self.pick("k", ["elr", "elrc", "elw", "elc", "elcp", "elx"])
         if k in ("elr", "elrc"):
             s = self.scalar(0); a = self.operand(d, True)
             self.emit("%s %d %d : %s" % (k, s, a, ix()), "element-read", d, s)
@@ -540,7 +583,7 @@ class Gen:
             self.emit("elw %d %d %d : %s" % (a, self.scalar(), self.scalar(), ix()), "element-write", d, a)
         elif k == "elc":
             a = self.target(d)
-            self.emit("elc %s %d %d : %s" % (r.choice(["add", "sub", "mul"]), a, self.scalar(), ix()), "element-compound", d, a)
+            self.emit("elc %s %d %d : %s" % (self.pick("op", ["add", "sub", "mul"]), a, self.scalar(), ix()), "element-compound", d, a)
         elif k == "elcp":
             a = self.target(d); b = self.operand(d, True)
             self.emit("elcp %d %d : %s : %s" % (a, b, ix(), ix()), "element-copy", d, a)
@@ -564,11 +607,191 @@ class Gen:
         else:
             self.emit("fexpm %d %d %d" % (t, self.operand(d, True), self.operand(d)), "float-exp-times", d, t)
 
+    def layout(self, dims, active, kind, style="any"):
+        """an array with extents `dims` in a prescribed memory layout: row-major root, column-major root, transposed /
+        permuted / reversed / strided / sliced view of a fresh root, or ("any") whatever array() composes"""
+        r = self.r; rank = len(dims)
+        active = (r.random() < 0.7) if active is None else active
+        if kind == "any":
+            return self.array(dims, active, None, style)
+        if kind == "root" or (kind == "col" and rank < 2) or (kind == "T" and rank != 2) or (kind == "perm" and rank < 3) \
+                or (kind == "slice" and rank > 3):
+            return self.root(dims, active, style, col=False)
+        if kind == "col":
+            return self.root(dims, active, style, col=True)
+        if kind == "T":
+            src = self.root([dims[1], dims[0]], active, style, col=r.random() < 0.3)
+            return self.derive(src, "vT %(h)d %(src)d", dims, "T")
+        if kind == "perm":
+            p = self.perm(rank)
+            sd = [0] * rank
+            for q in range(rank):
+                sd[p[q]] = dims[q]
+            src = self.root(sd, active, style, col=False)
+            return self.derive(src, "vperm %(h)d %(src)d " + " ".join(map(str, p)), dims, "permute")
+        if kind == "slice":
+            q = r.randint(0, rank); m = r.choice([2, 3])
+            src = self.root(dims[:q] + [m] + dims[q:], active, style, col=False)
+            spec = ["s0:%d:1" % (x - 1) for x in dims]
+            spec.insert(q, "i%d" % r.randrange(m))
+            return self.derive(src, "vw %(h)d %(src)d " + " ".join(spec), dims, "slice")
+        # "rev": every dimension reversed; "stride": stride 2 or 3 (either sign) with padding at both ends
+        sd, spec = [], []
+        for x in dims:
+            st = -1 if kind == "rev" else r.choice([2, 3, -2])
+            lo = 0 if kind == "rev" else r.randint(0, 1); pad = 0 if kind == "rev" else r.randint(0, 1)
+            span = (x - 1) * abs(st)
+            spec.append("s%d:%d:%d" % ((lo, lo + span, st) if st > 0 else (lo + span, lo, st)))
+            sd.append(lo + span + 1 + pad)
+        src = self.root(sd, active, style, col=False)
+        return self.derive(src, "vw %(h)d %(src)d " + " ".join(spec), dims, "reversed" if kind == "rev" else "stride")
+
+    LAYOUT_PAIRS = {1: [("root", "rev"), ("root", "stride"), ("stride", "rev"), ("slice", "root"), ("rev", "stride")],
+                    2: [("root", "T"), ("T", "root"), ("root", "col"), ("col", "T"), ("stride", "rev"), ("slice", "T"), ("rev", "root")],
+                    3: [("root", "perm"), ("perm", "col"), ("col", "root"), ("stride", "perm"), ("rev", "root")],
+                    4: [("root", "perm"), ("perm", "col"), ("stride", "rev"), ("slice", "perm")]}
+
+    def s_maxmin(self):
+        """element-wise max/min/fmax/fmin (policy classes Max, Min) and abs/fabs.  The two operands get DIFFERENT memory
+        layouts in most cases: each is read — for the value and for the comparison that decides which operand receives the
+        derivative — at its own location.  Integers in [-4, 4]: ties occur and follow the rule of is_left."""
+        r = self.r
+        k = self.pick("k", ["mm", "mm", "mm", "mm", "mmsl", "mmsr", "mmal", "mmar", "mmn1", "mmn2", "mmred", "ab", "abn"])
+        fn = self.pick("fn", ["max", "min", "fmax", "fmin"])
+        maxrank = 2 if k in ("mmn1", "mmn2", "mmred") else 3
+        d = self.rankdims((1, 2, 2, 3) if maxrank == 3 else (1, 2, 2), 120)
+        rank = len(d)
+        la, lb = self.pick("layouts", self.LAYOUT_PAIRS[rank] + [("any", "any")] * 3)
+        if k == "mmred":
+            s_ = self.scalar(0)
+            a = self.layout(d, True, la); b = self.layout(d, self.act("actb"), lb)
+            self.emit("mmred %s %d %d %d" % (fn, s_, a, b), "maxmin-sum-" + ac.MAXMIN[fn], d, s_)
+            return
+        t = self.target(d)
+        if k == "mm":
+            acta, actb = self.pick("acts", [(True, True), (True, True), (True, False), (False, True), (False, False)],
+                                   [6, 6, 4, 4, 1])
+            a = self.layout(d, acta, la); b = self.layout(d, actb, lb)
+            self.emit("mm %s %d %d %d" % (fn, t, a, b), "maxmin-" + fn, d, t)
+        elif k in ("mmsl", "mmsr"):
+            a = self.layout(d, True, la); c = r.randint(-3, 3)
+            self.emit(("mmsl %s %d %d %d" % (fn, t, c, a)) if k == "mmsl" else ("mmsr %s %d %d %d" % (fn, t, a, c)),
+                      "maxmin-scalar-%s-%s" % ("left" if k == "mmsl" else "right", ac.MAXMIN[fn]), d, t)
+        elif k in ("mmal", "mmar"):
+            a = self.layout(d, self.act(), la); sc = self.scalar(r.randint(-3, 3))
+            self.emit(("mmal %s %d %d %d" % (fn, t, sc, a)) if k == "mmal" else ("mmar %s %d %d %d" % (fn, t, a, sc)),
+                      "maxmin-adouble-%s-%s" % ("left" if k == "mmal" else "right", ac.MAXMIN[fn]), d, t)
+        elif k in ("mmn1", "mmn2"):
+            a = self.layout(d, True, la); b = self.layout(d, self.act("actb"), lb); c = self.layout(d, self.act("actc"), r.choice([la, lb, "any"]))
+            self.emit("%s %s %d %d %d %d" % (k, fn, t, a, b, c), "maxmin-nested-%s-%s" % (k[-1], ac.MAXMIN[fn]), d, t)
+        elif k == "ab":
+            f = self.pick("absfn", ["abs", "fabs"])
+            self.emit("ab %s %d %d" % (f, t, self.layout(d, True, la)), "abs", d, t)
+        else:
+            f = self.pick("absfn", ["abs", "fabs"])
+            self.emit("abn %s %d %d %d" % (f, t, self.layout(d, True, la), self.layout(d, self.act("actb"), lb)), "abs-nested", d, t)
+
+    def s_funcs(self):
+        """Float regime (oracle only): every element-wise function of ADEPT_DEF_UNARY_FUNC and the binary pow / atan2 on
+        active arrays of any layout, plain and as `f(A*B)*B`; arguments inside the open domain of the function"""
+        r = self.r
+        k = self.pick("k", ["ffn", "ffn", "ffn", "ffnn", "ffnn", "ffb", "ffbl", "ffbr"])
+        d = self.rankdims((1, 2), 30); t = self.target(d)
+        lay = lambda: self.pick("layout", ["any", "any", "root", "T", "rev", "stride", "col"])
+        if k in ("ffn", "ffnn"):
+            name = self.pick("name", ac.FLOAT_FUNCS)
+            st = FUNC_DOMAIN.get(name, "real")
+            a = self.layout(d, True, lay(), st)
+            if k == "ffn":
+                self.emit("ffn %s %d %d" % (name, t, a), "function-" + name, d, t)
+            else:
+                self.emit("ffnn %s %d %d %d" % (name, t, a, self.layout(d, True, lay(), st)), "function-nested-" + name, d, t)
+            return
+        f = self.pick("name", ["pow", "atan2"])
+        if k == "ffb":
+            acta, actb = self.pick("acts", [(True, True), (True, False), (False, True)])
+            a = self.layout(d, acta, lay(), "pos" if f == "pow" else "real")
+            b = self.layout(d, actb, lay(), "real")
+            self.emit("ffb %s %d %d %d" % (f, t, a, b), "function-" + f, d, t)
+        elif k == "ffbl" or f == "atan2":
+            a = self.layout(d, True, lay(), "real")
+            self.emit("ffbl %s %d %s %d" % (f, t, r.choice(["0.5", "2", "1.5", "3"]), a), "function-%s-scalar-left" % f, d, t)
+        else:
+            a = self.layout(d, True, lay(), "pos")
+            self.emit("ffbr pow %d %d %s" % (t, a, r.choice(["2", "0.5", "-1", "2.5", "3"])), "function-pow-scalar-right", d, t)
+
+    def s_diagx(self):
+        """N = diag_vector(A*B + A, k) of an active rank-2 expression: k of both signs, non-square extents, operands of any
+        layout (reduce.h section 5; F-69, F-71)"""
+        r = self.r
+        if "extents" in self.force:
+            d = self.dims(2)
+        else:
+            d = [r.choice([1, 2, 3, 4, 5]), r.choice([1, 2, 3, 4, 5])]
+        k = self.force["diag"] if "diag" in self.force else r.randint(-(d[0] - 1), d[1] - 1)
+        k = max(-(d[0] - 1), min(d[1] - 1, k))
+        la, lb = self.pick("layouts", self.LAYOUT_PAIRS[2] + [("any", "any")] * 3)
+        a = self.layout(d, True, la); b = self.layout(d, self.act("actb"), lb)
+        nh = self.h()
+        n = min(d[0], d[1] - k) if k >= 0 else min(d[0] + k, d[1])
+        self.info[nh] = dict(rank=1, dims=[n], active=True, root=nh, kind="arr", views=["root"], late=True)
+        self.emit("dvx %d %d %d %d" % (nh, a, b, k), "diag_vector-expression", d, None)
+        self.targets.add(nh)
+
+    def s_rank4(self):
+        """rank-4 targets and operands (drv_arrayad_s9.cpp): the theorems are rank-generic, parts 1..8 of the driver stop at 3"""
+        r = self.r
+        k = self.pick("k", ["copy", "neg", "bin", "bin", "binsl", "binsr", "cmp", "n1", "mm", "mm", "red", "rdim", "spr"])
+        if k in ("red", "rdim"):
+            f = self.pick("f", ["sum", "sum", "mean", "product", "minval", "maxval", "norm2"])
+            d = self.dims(4, 24 if f == "product" else 120)
+            style = "prod" if f in ("product", "norm2") else "any"
+            a = self.operand(d, True, style=style, reuse=0.0)
+            if k == "red":
+                s_ = self.scalar(0)
+                self.emit("red %s %d %d" % (f, s_, a), "reduce-" + f, d, s_)
+                return
+            dim = self.force["dim"] if "dim" in self.force else r.randrange(4)
+            nh = self.h(); nd = d[:dim] + d[dim + 1:]
+            self.info[nh] = dict(rank=3, dims=nd, active=True, root=nh, kind="arr", views=["root"], late=True)
+            self.emit("rdim %s %d %d %d" % (f, nh, a, dim), "reduce-dim-" + f, d, None)
+            self.targets.add(nh)
+            return
+        if k == "spr":
+            d = self.dims(3, 60); sd = self.force["sd"] if "sd" in self.force else r.randint(0, 3); n = r.choice([2, 3]) if "extents" in self.force else r.choice([1, 2, 3])
+            td = d[:sd] + [n] + d[sd:]
+            t = self.target(td)
+            self.emit("spr %d %d %d %d" % (sd, t, self.operand(d, True if r.random() < 0.8 else False), n), "spread", td, t)
+            return
+        d = self.dims(4, 160); t = self.target(d); troot = self.info[t]["root"]
+        la, lb = self.pick("layouts", self.LAYOUT_PAIRS[4] + [("any", "any")] * 4)
+        op = self.pick("op", ["add", "sub", "mul", "mul", "div"])
+        if k in ("copy", "neg"):
+            self.emit("%s %d %d" % (k, t, self.layout(d, self.act() if k == "copy" else True, la)), k, d, t)
+        elif k == "bin":
+            a = self.layout(d, self.act("acta"), la); b = self.layout(d, self.act("actb"), lb, "pow2" if op == "div" else "any")
+            self.emit("bin %s %d %d %d" % (op, t, a, b), "bin-" + op, d, t)
+        elif k in ("binsl", "binsr"):
+            left = k == "binsl"
+            c = r.choice([2, 4, -2, 8]) if op == "div" else r.choice([-3, -2, 2, 3, 5])
+            a = self.layout(d, True, la, "pow2" if (op == "div" and left) else "any")
+            self.emit(("binsl %s %d %d %d" % (op, t, c, a)) if left else ("binsr %s %d %d %d" % (op, t, a, c)),
+                      "scalar-%s-%s" % ("left" if left else "right", op), d, t)
+        elif k == "cmp":
+            a = self.layout(d, self.act(), la, "pow2" if op == "div" else "any")
+            self.emit("cmp %s %d %d" % (op, t, a), "compound-" + op, d, t)
+        elif k == "n1":
+            self.emit("n1 %d %d %d %d" % (t, self.layout(d, True, la), self.layout(d, None, lb), self.layout(d, None, "any")), "nested-n1", d, t)
+        else:
+            fn = self.pick("fn", ["max", "min", "fmax", "fmin"])
+            acta, actb = self.pick("acts", [(True, True), (True, False), (False, True)])
+            self.emit("mm %s %d %d %d" % (fn, t, self.layout(d, acta, la), self.layout(d, actb, lb)), "maxmin-" + fn, d, t)
+
     def s_fixed(self):
         r = self.r
-        which = r.choice(["f4", "f23"]); d = [4] if which == "f4" else [2, 3]
-        k = r.choice(["fxcopy", "fxbin", "fxsrc", "fxff", "fxbcp", "fxbca", "fxcmp", "fxred"])
-        op = r.choice(["add", "sub", "mul"])
+        which = self.pick("which", ["f4", "f23"]); d = [4] if which == "f4" else [2, 3]
+        k = self.pick("k", ["fxcopy", "fxbin", "fxsrc", "fxff", "fxbcp", "fxbca", "fxcmp", "fxred"])
+        op = self.pick("op", ["add", "sub", "mul"])
         if k == "fxsrc":
             t = self.target(d); f = self.fixed(which)
             self.emit("fxsrc %s %d %d %d" % (op, t, f, self.operand(d)), "fixed-source", d, t)
@@ -588,7 +811,7 @@ class Gen:
             self.emit("fxcmp %s %d %d" % (op, f, self.operand(d)), "fixed-compound", d, f)
         else:
             s = self.scalar(0)
-            self.emit("fxred %s %d %d" % (r.choice(["sum", "product", "maxval", "mean"]), s, f), "fixed-reduce", d, s)
+            self.emit("fxred %s %d %d" % (self.pick("f", ["sum", "product", "maxval", "mean", "minval"]), s, f), "fixed-reduce", d, s)
             self.targets.add(s)
             return
         self.targets.add(f)
@@ -627,7 +850,8 @@ class Gen:
 STMT_TABLE = {
     "default": [("copy", 4), ("neg", 2), ("bin", 9), ("bins", 5), ("bina", 4), ("nested", 6), ("wrap", 6), ("bcast", 5),
                 ("passive", 4), ("compound", 8), ("where", 8), ("indexed", 9), ("reduce", 8), ("rdim", 7), ("products", 5),
-                ("element", 5), ("float", 2), ("fixed", 5), ("overlap", 9), ("packed", 6)],
+                ("element", 5), ("float", 1), ("fixed", 5), ("overlap", 9), ("packed", 6), ("maxmin", 9), ("funcs", 4),
+                ("diagx", 2), ("rank4", 6)],
     "fixed-indexed": [("indexed", 10), ("fixed", 8), ("where", 3), ("compound", 2), ("bin", 2), ("rdim", 2), ("reduce", 2)],
 }
 
@@ -638,17 +862,143 @@ def gen_case(rng, mix="default"):
     return ops, g
 
 
-def sweep_cases(rng):
-    """directed cases run in every tier: parameter combinations that the weighted random choice reaches too rarely to rely on —
-    spread<d>(A, n) for every rank of A and every position d of the new dimension (plain and inside an expression)"""
+def directed(rng, method, extents=(2, 3, 4, 5), **force):
+    """one single-statement case of family `method` with the given discrete parameters forced and pairwise different
+    extents > 1 (a wrong coordinate, dimension or stride cannot cancel)"""
+    g = Gen(rng, "default")
+    g.force.update(force)
+    if extents:
+        g.force["extents"] = list(extents)
+    getattr(g, "s_" + method)()
+    g.force.clear()
+    return (g.case(0), g)
+
+
+def sweep_cases(rng, tier="quick"):
+    """directed cases run in EVERY run: the discrete parameter combinations of each statement family that the weighted random
+    choice reaches too rarely to rely on.  One statement per case, pairwise different extents > 1, operands and targets in
+    random layouts (array()) unless the layout is the swept parameter."""
     out = []
+    D = lambda *a, **kw: out.append(directed(rng, *a, **kw))
+    OPS4 = ["add", "sub", "mul", "div"]; OPS3 = ["add", "sub", "mul"]
+    FUNS = ["sum", "mean", "product", "minval", "maxval", "norm2"]
+    fext = lambda f: (2, 4, 8) if f == "mean" else (2, 3, 4) if f == "product" else (2, 3, 4, 5)
+    # spread<d>(A, n): every rank of A and every position d of the new dimension (plain and inside an expression)
     for k, rank in (("spr", 1), ("spr", 2), ("spre", 1)):
         for sd in range(rank + 1):
-            g = Gen(rng, "default")
-            g.force["spr"] = (k, rank, sd)
-            g.s_products()
-            g.force.clear()
-            out.append((g.case(0), g))
+            out.append(directed(rng, "products", extents=None, spr=(k, rank, sd)))
+    # reductions: function x rank (whole array, plain and of an expression), function x rank x dimension (plain and expression)
+    for f in FUNS:
+        for rank in (1, 2, 3):
+            for k in ("red", "rede"):
+                D("reduce", extents=fext(f), f=f, rank=rank, k=k)
+        for rank in (2, 3):
+            for dim in range(rank):
+                for k in ("rdim", "rdime"):
+                    D("rdim", extents=fext(f), f=f, rank=rank, dim=dim, k=k)
+    D("reduce", k="dot", f="sum", rank=1)
+    # where / either_or variants x rank
+    for k in ("whr", "whrs", "wheo", "wheos"):
+        for rank in (1, 2):
+            D("where", k=k, rank=rank)
+    # integer-vector indexing: every kind (compound: every operator)
+    for k in ("ixt", "ixe", "ixts", "ixtc", "ixs", "ixss", "ixtt", "ixt2", "ixe2", "ixs2", "ixts2"):
+        D("indexed", k=k)
+    for op in OPS3:
+        D("indexed", k="ixcmp", op=op)
+    # compound assignment: operator x kind of right-hand side (active array, passive array, passive scalar, adouble) x rank
+    for rank in (1, 2, 3):
+        for op in OPS4:
+            D("compound", k="cmp", op=op, act=True, rank=rank)
+            D("compound", k="cmp", op=op, act=False, rank=rank)
+            D("compound", k="cmps", op=op, rank=rank)
+            D("compound", k="cmpa", op=op, rank=rank)
+    # binary operators: operator x activeness of the operands x rank; scalar / adouble on either side
+    for rank in (1, 2, 3):
+        for op in OPS4:
+            for acta, actb in ((True, True), (True, False), (False, True)):
+                D("bin", op=op, acta=acta, actb=actb, rank=rank)
+            for left in (True, False):
+                D("bins", op=op, left=left, rank=rank)
+        for op in OPS3:
+            for left in (True, False):
+                D("bina", op=op, left=left, rank=rank, act=rng.random() < 0.7)
+        # wrappers and nested forms n1..n8, broadcasts, passive right-hand sides
+        for k in ("n1", "n2", "n3", "n8"):
+            D("nested", k=k, rank=rank)
+        for k in ("n4", "n5", "n6", "n7"):
+            D("wrap", k=k, rank=rank)
+        for k in ("bcp", "bca", "bce"):
+            D("bcast", k=k, rank=rank)
+        for k in (True, False):
+            D("passive", k=k, rank=rank)
+        D("copy", rank=rank, act=True); D("copy", rank=rank, act=False); D("neg", rank=rank)
+        # element access kinds
+        for k in ("elr", "elrc", "elw", "elcp", "elx"):
+            D("element", k=k, rank=rank)
+        for op in OPS3:
+            D("element", k="elc", op=op, rank=rank)
+    # FixedArray kinds x both fixed types (x operator / reduction function where there is one)
+    for which in ("f4", "f23"):
+        for k in ("fxcopy", "fxbcp", "fxbca"):
+            D("fixed", extents=None, which=which, k=k)
+        for k in ("fxbin", "fxsrc", "fxff", "fxcmp"):
+            for op in OPS3:
+                D("fixed", extents=None, which=which, k=k, op=op)
+        for f in ("sum", "product", "maxval", "minval", "mean"):
+            D("fixed", extents=None, which=which, k="fxred", f=f)
+    # max / min: function x pair of DIFFERENT operand layouts x activeness; scalar and adouble forms; nested; reduced; abs
+    for rank in (1, 2, 3):
+        for li, lay in enumerate(Gen.LAYOUT_PAIRS[rank]):
+            for fi, fn in enumerate(("max", "min", "fmax", "fmin")):
+                acts = [(True, True), (True, False), (False, True)][(li + fi) % 3]
+                D("maxmin", k="mm", fn=fn, rank=rank, layouts=lay, acts=acts)
+            D("maxmin", k="mm", fn=("min", "max")[li % 2], rank=rank, layouts=lay, acts=(True, True))
+        for fn in ("max", "min", "fmax", "fmin"):
+            lay = rng.choice(Gen.LAYOUT_PAIRS[rank])
+            for k in ("mmsl", "mmsr", "mmal", "mmar"):
+                D("maxmin", k=k, fn=fn, rank=rank, layouts=lay)
+        for fa in ("abs", "fabs"):
+            D("maxmin", k="ab", absfn=fa, rank=rank, layouts=rng.choice(Gen.LAYOUT_PAIRS[rank]))
+            D("maxmin", k="abn", absfn=fa, rank=rank, layouts=rng.choice(Gen.LAYOUT_PAIRS[rank]))
+    for rank in (1, 2):
+        for lay in Gen.LAYOUT_PAIRS[rank]:
+            for fn in ("max", "min"):
+                D("maxmin", k=rng.choice(["mmn1", "mmn2"]), fn=fn, rank=rank, layouts=lay)
+        for fn in ("max", "min"):
+            for k in ("mmn1", "mmn2", "mmred"):
+                D("maxmin", k=k, fn=fn, rank=rank, layouts=rng.choice(Gen.LAYOUT_PAIRS[rank]))
+    # rank 4: every statement kind of the rank-4 menu; operator x layouts; reduction function x dimension; spread position
+    X4 = (2, 3, 4, 5)
+    for lay in Gen.LAYOUT_PAIRS[4]:
+        for op in OPS4:
+            D("rank4", extents=X4, k="bin", op=op, layouts=lay, acta=True, actb=rng.random() < 0.6)
+        for fn in ("max", "min"):
+            D("rank4", extents=X4, k="mm", fn=fn, layouts=lay, acts=rng.choice([(True, True), (True, False), (False, True)]))
+        for k in ("copy", "neg", "n1"):
+            D("rank4", extents=X4, k=k, layouts=lay, act=True)
+    for op in OPS4:
+        for k in ("binsl", "binsr", "cmp"):
+            D("rank4", extents=X4, k=k, op=op, layouts=rng.choice(Gen.LAYOUT_PAIRS[4]), act=rng.random() < 0.6)
+    for f in FUNS:
+        D("rank4", extents=(2, 2, 4, 2) if f == "mean" else (2, 3, 2, 2) if f == "product" else X4, k="red", f=f)
+        for dim in range(4):
+            D("rank4", extents=(2, 4, 8, 2) if f == "mean" else (2, 3, 2, 2) if f == "product" else X4, k="rdim", f=f, dim=dim)
+    for sd in range(4):
+        D("rank4", extents=X4, k="spr", sd=sd)
+    # every element-wise function, plain and nested; pow / atan2 in every form
+    for i, name in enumerate(ac.FLOAT_FUNCS):
+        D("funcs", k="ffn", name=name, rank=1 + i % 2)
+        D("funcs", k="ffnn", name=name, rank=2 - i % 2)
+    for f in ("pow", "atan2"):
+        for acts in ((True, True), (True, False), (False, True)):
+            D("funcs", k="ffb", name=f, acts=acts)
+        D("funcs", k="ffbl", name=f)
+    D("funcs", k="ffbr", name="pow")
+    # diag_vector(expression, k): every k of a 3x5 / 5x3 / 4x2-like expression (extents differ), both signs
+    for ext_ in ((3, 5), (5, 3), (2, 4)):
+        for k in range(-(max(ext_) - 1), max(ext_)):
+            D("diagx", extents=ext_, diag=k, layouts=rng.choice(Gen.LAYOUT_PAIRS[2] + [("any", "any")]))
     return out
 
 
@@ -834,7 +1184,8 @@ def shrink(exe, W, ops, kind):
 
 
 def signature(ops, msg):
-    kinds = sorted(set(o.split()[0] + ("-" + o.split()[1] if o.split()[0] in ("red", "rede", "rdim", "rdime") else "") for o in ops if ac.is_stmt(o)))
+    sub = ("red", "rede", "rdim", "rdime", "mm", "mmsl", "mmsr", "mmal", "mmar", "mmn1", "mmn2", "mmred", "ffn", "ffnn", "ffb", "ffbl", "ffbr")
+    kinds = sorted(set(o.split()[0] + ("-" + o.split()[1] if o.split()[0] in sub else "") for o in ops if ac.is_stmt(o)))
     return "C03:" + ",".join(kinds)
 
 
@@ -881,7 +1232,7 @@ def run(ctx, replay):
         cases = []
         if vi == 0:
             cases += [(ops, "corpus:" + name) for ops, name in load_corpus()]
-        cases += sweep_cases(ctx.rng)
+        cases += sweep_cases(ctx.rng, ctx.tier)
         n = 0
         target = nstmt_target if vi == 0 else nstmt_target // 2
         mixes = [("default", target)] if ctx.tier == "quick" else [("default", target - target // 4), ("fixed-indexed", target // 4)]
